@@ -737,6 +737,8 @@ def _e2e_file(item):
                 targets.append(k)
         if quick or big:
             targets = targets[:4]
+        elif len(prot) <= 60:
+            targets = list(prot)      # thorough: every position of the small helix-rich / sheet-rich structures
         two = md.Trajectory(np.concatenate([t.xyz[:1], pert.xyz[6:7]]), t.topology)
         for k in targets:
             # incomplete residues: drop CA / drop N / drop C and O together (see MANIFEST note on C14)
